@@ -27,6 +27,9 @@ def plan(tier, seed):
         # two channels on ONE basis with different clocks: a phase barrier set by the fine channel is off the coarse channel's grid
         (corner("unit", prefix=A.GR, over={"rydberg_local": dict(clock=4, min_dur=8)}, name="unit-samebasis-clock-1-vs-4"),
          A.timing(l="r", basis_l="ground-rydberg", eom=False), 3),
+        # EOM buffer times that are below the channel's minimum duration / off its clock grid (they have to be adjusted like any wait)
+        (corner("real", prefix=A.GL, eom=dict(custom_buffer_time=50), name="real-eom-buffer-off-the-clock-grid"), A.timing(), 2),
+        (corner("real", prefix=A.GL, eom=dict(custom_buffer_time=8), name="real-eom-buffer-below-the-minimum-duration"), A.timing(), 2),
         # a spare Local channel declared first, without an initial target and never targeted (a valid channel with no slot at all)
         (corner("real", prefix=[("declare", "s", "rydberg_local")] + A.GL, name="real-spare-untargeted-channel-first"), A.timing(), 2),
         # a minimum duration that is NOT a multiple of the clock (clock 4, minimum 10): automatic waits at or below the minimum
